@@ -46,7 +46,7 @@ META = dict(
 OBLIGATIONS = ["dba_sync_finish_safe_partial", "dba_sync_safe_forever", "dba_counter_radius", "dba_sinit_is_initial",
                "dba_first_finish_by_counter", "dba_stop_needs_counter", "dba_end_after_finish", "dba_no_nested_replay",
                "dba_refines_rounds", "dba_phase_gap", "dba_delivery_expected", "dba_postponed_next_phase",
-               "dba_finish_safe"]
+               "dba_finish_safe", "dba_finish_safe_any_run"]
 
 
 def _name(i):
